@@ -46,6 +46,16 @@ def special_progs(rng):
     q = P(synth.mkset(0), [2, 0], 0, "none:pass-through-iface-arg")
     q["kinds"] = {0: "iface"}; q["extra_impl"] = {1: [0]}
     out.append(q)
+    # a value written in a library set that mentions an unexported field, under every injector signature
+    for ic in (False, True):
+        for ie in (False, True):
+            q = P(synth.mkset(0, [synth.mkset(1, [], [], [{"id": 5, "out": 2}])], [mk(1, 0, [2])]), [], 0, "none+value-unexported:sig", cleanup=ic, err=ie)
+            for x in spec.all_sets(q["tree"]):
+                if x["id"] == 1:
+                    x["pkg"] = 1
+                    for w in x["values"]:
+                        w["unexported"] = True; w["ok"] = False
+            out.append(q)
     # two anonymous inline sets in one Build, one of them contributing nothing
     sa = synth.mkset(1, [], [mk(1, 0, [])]); sb = synth.mkset(2, [], [mk(2, 2, [])])
     q = P(synth.mkset(0, [sa, sb]), [], 0, "unused:inline-set")
@@ -110,8 +120,10 @@ def gen_progs(rng, n, pid):
             opts["full_sig"] = rng.random() < 0.8
         if pid == "C12":
             opts["lit_p"] = 0.35
-        if pid in ("C13", "C01"):
+        if pid in ("C13", "C01", "C19"):
             opts["unexported_p"] = 0.3
+        if pid == "C19":
+            opts["full_sig"] = rng.random() < 0.6
         if pid in ("C14", "C01"):
             opts["names_p"] = 0.9 if pid == "C14" else 0.5
         if pid in ("C13", "C01", "C10", "C15"):
